@@ -45,7 +45,7 @@ CLAIMED = {
             "DESIGN.md §7 C07"),
     "C08": ("exploration",
             "small-scope enumeration + property-based testing (proptest): zones × queries × claims × every subset of the genuine NSEC chain into the validator's decision procedure; soundness judged by a semantic truth model of the zone, completeness against the proofs hickory's own server attaches (direct and end-to-end)",
-            "Every depth-2 zone over a small universe (quick ≤3 owners, thorough ≤4, larger sliced; depth 3 sampled) with ENTs, wildcards, delegations and DS is rendered into the harness's zone model, which yields the truth about every query and the genuine RFC 4035 NSEC chain. For every (zone, query, claim ∈ NXDOMAIN/NODATA/wildcard answer, SOA present/absent) and every non-empty subset of the chain, verify_nsec == Secure ⇒ the claim is true in the zone. Completeness: hickory's own signed InMemoryZoneHandler behind Catalog must attach NSECs that verify_nsec (and, sampled, the real DnssecDnsHandle) accepts; hickory's chain must equal the reference chain.",
+            "Every depth-2 zone over a small universe (quick ≤3 owners, thorough ≤4, larger sliced; depth 3 sampled) with ENTs, wildcards, delegations and DS is rendered into the harness's zone model, which yields the truth about every query and the genuine RFC 4035 NSEC chain. For every (zone, query, claim ∈ NXDOMAIN/NODATA/wildcard answer, SOA present/absent) and every non-empty subset of the chain, verify_nsec == Secure ⇒ the claim is true in the zone. Completeness: hickory's own signed InMemoryZoneHandler behind Catalog must attach NSECs that verify_nsec (and, sampled, the real DnssecDnsHandle) accepts; hickory's chain must equal the reference chain. Two forged end-to-end sub-properties hand the real DnssecDnsHandle (a) the NSEC of a wildcard owner renamed to a name below it and (b) the server's honest wildcard-expanded answer, direct or behind an in-zone CNAME, with every NSEC removed: neither may validate.",
             "Trusts refm/zonemodel.rs (truth predicate from RFC 1034 §4.3.2 / RFC 4592, not a re-reading of RFC 4035 §5.4). Thirteen known findings (ten in the NSEC validator/server, three authoritative-lookup ones shared with C10) are classified separately from the oracle and excluded by signature.",
             "DESIGN.md §7 C08"),
     "C09": ("exploration",
@@ -55,12 +55,12 @@ CLAIMED = {
             "DESIGN.md §7 C09"),
     "C10": ("exploration",
             "property-based testing (proptest) + exhaustive RFC 4592 example sweep: generated zones × queries through the real Catalog, differential against an independent RFC 1034 §4.3.2 / RFC 4592 reference model",
-            "Generated zones over a small universe (hosts, ENTs, wildcards at several depths, CNAME chains/loops, delegations with/without glue and DS, occluded data; unsigned / NSEC / NSEC3±opt-out) are rendered into hickory's InMemoryZoneHandler and, independently, into the harness's reference model; every query name in and around the zone × 9 qtypes × DO goes in as bytes through Request::from_bytes → Catalog::handle_request → ResponseHandle and the response is read by the harness's own wire reader. Compared: rcode, AA, answer set incl. in-zone CNAME chain and synthesised owners, no data from below a cut, referral shape, SOA on negatives, NXDOMAIN vs NODATA (ENT), RRSIG/denial presence with DO.",
+            "Generated zones over a small universe (hosts, ENTs, wildcards at several depths, CNAME chains/loops, delegations with/without glue and DS, occluded data; unsigned / NSEC / NSEC3±opt-out) are rendered into hickory's InMemoryZoneHandler and, independently, into the harness's reference model; every query name in and around the zone × 9 qtypes × DO goes in as bytes through Request::from_bytes → Catalog::handle_request → ResponseHandle and the response is read by the harness's own wire reader. Compared: rcode, AA, answer set incl. in-zone CNAME chain and synthesised owners, no data from below a cut, referral shape, SOA on negatives, NXDOMAIN vs NODATA (ENT), RRSIG/denial presence with DO, no NSEC/NSEC3 beside a plain positive answer, and for NODATA from an NSEC3 zone the NSEC3 RR whose owner hash (recomputed from the record's parameters) matches the query name.",
             "Trusts refm/auth_ref.rs (self-checked against the outcomes RFC 4592 §2.2.1 lists). Ten known findings (three are the RFC 4592 gaps upstream #[ignore]s) are excluded by signature; every query is judged and any deviation outside those signatures is a VIOLATION. Additional-section contents, record order and TTLs of synthesised records are not asserted.",
             "DESIGN.md §7 C10"),
     "C11": ("exploration",
             "property-based testing (proptest): generated catalogs × ACLs × request byte strings (valid, mutated, hostile, random) through the real front door; oracle = decision table from the statement (response count, ID/question echo, rcode ∈ allowed set, longest-suffix zone marker, probe query after every hostile request)",
-            "Catalogs with nested/sibling/root zones and chained handlers, allow/deny sets with nested v4/v6 prefixes, UDP/TCP; requests drawn from valid queries, every opcode, EDNS versions, QR=1, runts, QDCOUNT 0/2, garbage, byte mutations and random bytes go through VerifFrontDoor::handle. Responses sent must be 0 for runts/responses and exactly 1 otherwise with QR=1, the request's ID and (when it parsed) question; rcode within the set of codes whose condition holds; TXT marker = longest-suffix origin; no panic; a fixed probe still answered afterwards.",
+            "Catalogs with nested/sibling/root zones and chained handlers, allow/deny sets with nested v4/v6 prefixes, UDP/TCP; requests drawn from valid queries, every opcode, EDNS versions, QR=1, runts, QDCOUNT 0/2, garbage, byte mutations and random bytes go through VerifFrontDoor::handle. Responses sent must be 0 for runts/responses and exactly 1 otherwise with QR=1, the request's ID and (when it parsed) question; rcode within the set of codes whose condition holds; TXT marker = longest-suffix origin; no panic; a fixed probe still answered afterwards. OPT/TSIG outside the additional section and class-IN A/AAAA records with an impossible RDLENGTH (non-UPDATE) count as malformed bodies. The server's TCP read-loop wrapper (TimeoutStream) is driven on a paused clock with a consumer that is busy between reads: a request that has arrived is delivered however long the previous one took.",
             "Trusts refm/frontdoor_ref.rs (ACL model from the access.rs rustdoc). Where the statement fixes no precedence between gates the oracle accepts the set.",
             "DESIGN.md §7 C11"),
     "C12": ("exploration",
@@ -81,7 +81,7 @@ CLAIMED = {
     "C15": ("exploration",
             "property-based testing (proptest): insert/get/clear histories with explicit instants under the virtual clock against a pure TTL-cache reference model",
             "Histories of ≤30 (thorough 40) operations over 3 queries with nanosecond times (steps of 0 / sub-second / seconds / jumps to the model's expiry ±{0,1 ns,0.5 s,1 s}) × TtlConfig built through its serde form (default / per-type, min>ttl, max<ttl, min=max, 0). Every hit must be the most recent cacheable insert, within its lifetime L, with every TTL = per-type clamped − ⌊elapsed⌋ floored at 0 and non-increasing; transient errors never come back. The hit ratio on certainly-live entries is measured (100 % in quick) so the check cannot go vacuous. clear/clear_query and the alias path (CNAME chain and target in one upstream response, preserve_intermediates on/off) are exercised through CachingClient::lookup over a scripted upstream: the entry must not be served after the smallest TTL of the chain. recursor_expiry carries the clauses to the recursor (which shares the cache): a query is resolved twice on an honest simulated internet with a pause of 0 s..3 h in virtual time; what the second resolution returns without any upstream datagram must have counted down by the pause, nothing after its TTL (3600 s), no negative answer after its negative TTL (300 s).",
-            "Trusts refm/cache_ref.rs. Where the statement admits two readings of L (CNAME bounds vs query-type bounds) the weaker bound is asserted and the difference counted. None is always acceptable (eviction).",
+            "Trusts refm/cache_ref.rs. L is read over the stored (per-type clamped) TTLs, as the statement's second clause words it; the reading over upstream TTLs is computed and counted only. None is always acceptable (eviction).",
             "DESIGN.md §7 C15"),
     "C16": ("exploration",
             "schedule enumeration + property-based testing (proptest) on a simulated runtime: every arrival order of ≤4 forged/genuine datagrams enumerated, longer schedules and multiplexer op histories sampled; oracle = validity predicate on which datagram may complete a query + ID-routing model",
@@ -90,12 +90,12 @@ CLAIMED = {
             "DESIGN.md §7 C16"),
     "C17": ("exploration",
             "property-based testing (proptest) + exhaustive small-scope enumeration of chunk compositions against a framing reference model",
-            "The real TcpStream is polled by hand over a scripted socket: generated read chunkings with would-block steps, close positions and write-acceptance scripts; for every short stream (framed length ≤10 quick / ≤13 thorough) ALL compositions into read chunks × ALL close positions and ALL compositions into write acceptances are enumerated. Oracle: yielded items = the complete messages before the close, then clean end / error / idle; octets accepted by the socket = len_be16‖body concatenation.",
+            "The real TcpStream is polled by hand over a scripted socket: generated read chunkings with would-block steps, close positions and write-acceptance scripts; for every short stream (framed length ≤10 quick / ≤13 thorough) ALL compositions into read chunks × ALL close positions and ALL compositions into write acceptances are enumerated. Oracle: yielded items = the complete messages before the close, then clean end / error / idle; octets accepted by the socket = len_be16‖body concatenation, all of them flushed once the stream is idle. The server-side TimeoutStream wrapper passes items unchanged and turns only a silence of the peer longer than the timeout into an error (busy consumer included).",
             "Trusts the scripted socket model (wakes immediately after would-block; silent peer = Pending without wake). Zero-length frames and Ok(0) writes are outside the stated domain.",
             "DESIGN.md §7 C17"),
     "C18": ("exploration",
             "property-based testing (proptest) over fault assignments on a simulated network in virtual time; oracle = validity of the returned answer, liveness where ordering cannot matter, exact virtual-time deadline, exchange-count comparison for de-duplication",
-            "The real NameServerPool::from_config runs on the discrete-event runtime against 1..4 scripted servers (answer, trusted/untrusted NXDOMAIN, TC-on-UDP with full/refused/reset/hanging TCP, silent, io errors, resets, Busy×n) × ordering strategy × num_concurrent_reqs × protocols × 1..5 callers. Ok ⇒ an answer some server's behaviour can produce, never a truncated UDP body; fast-failing faults + ≥1 healthy server ⇒ Ok; completion time ≤ timeout in virtual time; k identical concurrent callers cause the same exchanges as one and get equal results; a later lookup causes a new exchange.",
+            "The real NameServerPool::from_config runs on the discrete-event runtime against 1..4 scripted servers (answer, trusted/untrusted NXDOMAIN, TC-on-UDP with full/refused/reset/hanging TCP, silent, io errors, resets, Busy×n) × ordering strategy × num_concurrent_reqs × protocols × 1..5 callers. Ok ⇒ an answer some server's behaviour can produce, never a truncated UDP body; fast-failing faults + ≥1 healthy server ⇒ Ok; completion time ≤ timeout in virtual time; k identical concurrent callers cause the same exchanges as one and get equal results; a later lookup causes a new exchange; a caller that gives up in flight (a joiner, or the only caller) leaves nothing behind that changes later identical lookups.",
             "Liveness is asserted only where the pool's server ordering cannot matter. Two known findings (deadline overrun by the attempt in flight; 'receiver was canceled' treated as fatal) are excluded by signature and reported as KNOWN-FINDING; a larger overrun stays a VIOLATION.",
             "DESIGN.md §7 C18"),
     "C19": ("exploration",
